@@ -913,7 +913,10 @@ func genMPath(c *Ctx, pool []*mpath) *mpath {
 		case 0:
 			s = pstep{kind: 0, name: []string{"a", "b", "#", "\u00e9", "ab", ""}[c.G(6)]}
 		case 1:
-			s = pstep{kind: 1, num: []NumDesc{{Mode: NumParse, Text: "0"}, {Mode: NumInt, Text: "1"}, {Mode: NumFloat, Text: "1"}, {Mode: NumParse, Text: "2"}, {Mode: NumFloat, Text: "0.5"}, {Mode: NumParse, Text: "0.5"}, {Mode: NumNegZero}}[c.G(7)]}
+			s = pstep{kind: 1, num: []NumDesc{{Mode: NumParse, Text: "0"}, {Mode: NumInt, Text: "1"}, {Mode: NumFloat, Text: "1"}, {Mode: NumParse, Text: "2"}, {Mode: NumFloat, Text: "0.5"}, {Mode: NumParse, Text: "0.5"}, {Mode: NumNegZero},
+				// one decimal that no binary precision holds exactly, at four precisions: equal keys, different bits
+				{Mode: NumParse, Text: "0.1"}, {Mode: NumFloat, Text: "0.1"}, {Mode: NumPrec, Prec: 24, Text: "0.1"}, {Mode: NumPrec, Prec: 200, Text: "0.1"},
+				{Mode: NumPrec, Prec: 24, Text: "-2.25"}, {Mode: NumParse, Text: "123456789012345678901234567890"}}[c.G(13)]}
 		case 2:
 			s = pstep{kind: 2, name: []string{"a", "#", "é", "é", "k", ""}[c.G(6)]}
 		}
@@ -922,8 +925,7 @@ func genMPath(c *Ctx, pool []*mpath) *mpath {
 		case 0:
 			m.p = m.p.GetAttr(s.name)
 		case 1:
-			if s.num.Mode == NumInt || (s.num.Mode == NumParse && s.num.Text != "0.5") {
-				bi, _ := new(big.Int).SetString(s.num.Text, 10)
+			if bi, isInt := new(big.Int).SetString(s.num.Text, 10); (s.num.Mode == NumInt || s.num.Mode == NumParse) && isInt && bi.IsInt64() {
 				m.p = m.p.IndexInt(int(bi.Int64()))
 				s.num = NumDesc{Mode: NumInt, Text: s.num.Text}
 				m.steps[len(m.steps)-1] = s
